@@ -217,6 +217,11 @@ def unwrap(v):
     return v.v if isinstance(v, NpScalar) else v
 
 
+class DefaultDict(dict):
+    """collections.defaultdict with a concrete key set"""
+    factory = None
+
+
 class StarSeq:
     """*seq in a call where seq has symbolic length."""
     def __init__(self, seq):
@@ -1205,6 +1210,17 @@ class Interp:
         return self.index(v, idx)
 
     def index(self, v, idx):
+        if isinstance(v, DefaultDict):
+            key = self.hashable(idx)
+            has = self.dict_has(v, key)
+            if has is False or (has is not True and not self.truth(has)):
+                val = self.call(v.factory, [], {}) if v.factory is not None else None
+                if v.factory is None:
+                    raise self.exc('KeyError', key)
+                self.note_global_write(v)
+                v[key] = val
+                return val
+            return self.dict_get(v, key)
         if isinstance(v, dict):
             return self.dict_get(v, idx)
         if isinstance(v, (list, tuple)):
